@@ -418,7 +418,17 @@ func pickTime(r *gen.Rand, ds *dataset, all []int64, ge map[string][]int64, e *e
 	if len(ends) == 0 {
 		ends = ge[""]
 	}
-	switch r.Intn(13) {
+	switch r.Intn(15) {
+	case 13, 14: // the window straddles a boundary between two ingestion slices (= two files / file and memtable)
+		if ds.Slices > 1 {
+			b := baseMs + ds.SpanMs*int64(1+r.Intn(ds.Slices-1))/int64(ds.Slices)
+			w := rg
+			if w == 0 {
+				w = lookbackMs
+			}
+			return b + off + w*int64(1+r.Intn(3))/4 + int64(r.Intn(2000)) - 1000, true
+		}
+		return baseMs + int64(r.Intn(int(ds.SpanMs))), false
 	case 0, 1, 2: // exactly on a sample (after applying the selector's offset)
 		return all[r.Intn(len(all))] + off, true
 	case 3: // a sample sits exactly on the left boundary of the window
@@ -739,6 +749,8 @@ func runCase1(n int, di int, ds *dataset, u *upstream, sv *server, e exprCase, m
 			case hasVectorVectorBinop(e.Expr) && fromSv.Err == "" && extraPointsOnly(fromSv, svr):
 				co.Known = addRule(co.Known, fBinopNext)
 			case hasMatrixSelector(e.Expr) && fromSv.Err == "" && staleExplainsSteps(ds, u, &e, steps, si, svr):
+				co.Known = addRule(co.Known, fStaleEnd)
+			case hasMatrixSelector(e.Expr) && staleInSpan(ds, e.Expr, start, end):
 				co.Known = addRule(co.Known, fStaleEnd)
 			default:
 				co.Unexplained = true
